@@ -67,6 +67,17 @@ fn c06_case(leg: &mut Leg, r: &mut Rng, case_seed: u64) {
     let nrec = r.range(1, 9) as usize;
     let q = rn::decode(&qb, true).expect("own query").0;
     let mut up = rn::gen_reply(r, &q, nrec, 40, false);
+    if r.chance(1, 3) {
+        // record types a cache might think "do not count" (TSIG 250, TKEY 249, SIG 24, NULL 10, private use, an OPT-like 41 is
+        // lifted out by the decoder so it is not used): the smallest TTL of ANY record bounds the entry
+        let t = *r.pick(&[250u16, 249, 24, 10, 65_280, 99, 46, 47]);
+        let rr = rn::Rr { name: q.questions[0].name.clone(), rtype: t, class: if r.chance(1, 4) { 255 } else { 1 }, ttl: 0, rdata: r.bytes_in(0, 24) };
+        match r.below(3) {
+            0 => up.answer.push(rr),
+            1 => up.authority.push(rr),
+            _ => up.additional.push(rr),
+        }
+    }
     for rr in up.answer.iter_mut().chain(up.authority.iter_mut()).chain(up.additional.iter_mut()) {
         rr.ttl = ttl_pick(r);
     }
